@@ -24,6 +24,11 @@ EXTRA = {  # additional checks that are expected to see a change, besides the pr
     "C05-7b": ["C04", "C06"], "C07-7b": ["C08"], "C08-7b": ["C10", "C07"], "C10-7b": ["C17"], "C11-7a": ["C20"],
     "C13-7a": ["C16"], "C14-7b": ["C16", "C13"], "C16-7a": ["C15", "C12"], "C16-7b": ["C12"], "C17-7b": ["C03", "C20", "C11"], "C20-7b": ["C03", "C17"],
     "C09-7b": ["C20"], "C12-7b": ["C15"],
+    # round 8 (error paths, re-entrant reporters, caches with non-unique keys): keys and derivation are C04/C05's,
+    # bucket sets C20's/C03's, sanitizer memos C06's, Prometheus vector keys C17's, M3 packet accounting and retries C12's
+    "C01-8b": ["C04"], "C02-8a": ["C09"], "C02-8b": ["C06"], "C03-8a": ["C20"], "C03-8b": ["C20"], "C04-8a": ["C05"], "C04-8b": ["C07"],
+    "C05-8a": ["C12"], "C09-8b": ["C17"], "C10-8b": ["C04"], "C11-8a": ["C03", "C20"], "C11-8b": ["C05"], "C13-8a": ["C12"], "C14-8a": ["C12"],
+    "C16-8b": ["C12"],
     # seen since the accounting lemma runs with timestamps of the longest encoding (round 7)
     "C16-6a": ["C12"],
     "C03-2b": ["C09"], "C05-2b": ["C09"], "C10-2a": ["C11", "C09"], "C05-2a": ["C04"], "C06-2b": ["C04"], "C01-2b": ["C07"],
